@@ -152,6 +152,8 @@ def run(ctx):
                 "the ground dependency graph has a cycle through negation")
     ctx.proof_phase(MODULE, THEOREMS)
     ctx.proof_phase(SEM[0], SEM[1])
+    # a definite program has no undefined world in the reference: the classifier can never call it "must reject"
+    ctx.proof_phase("ProbLogProofs.Properties.C01SemProb", ["ProbLogProofs.C01.C01_run_definite_no_undef"])
     drv = ctx.driver("Drivers.Spine")
     if drv is None:
         return ctx.finish("other", "driver missing")
